@@ -99,6 +99,49 @@ def parked_join_histories(r, thorough):
     return cases
 
 
+def orphan_join_histories(r, thorough):
+    """a JOIN that waits for a channel's lock while that channel is released (its creator's JOIN is rolled back after a
+    failed announcement, or its last member leaves) and, in the same scheduler tick, another request creates a channel of
+    the same name (`batch`: the third JOIN's bytes and the modulator's answer are queued back to back, in either order).
+    Whoever got a JOIN_ACK must be a member in both views afterwards (fix 8cc81f1: the waiting JOIN used to be admitted to
+    the released channel object).  Outside the sequential model: judged by the audit."""
+    cases = []
+    variants = [(cause, order, third) for cause in ("creator_rollback", "last_leaves", "last_hangs_up") for order in ("send_first", "release_first")
+                for third in ("join", "join_then_publish")]
+    if not thorough:
+        variants = [v for v in variants if v[1] == "send_first"] + r.sample([v for v in variants if v[1] != "send_first"], 2)
+    for cause, order, third in variants:
+        cfg = sl.base_cfg(r, {"ops": ["fwd-event"], "proto": "P/1"})
+        cfg.update({"max_clients": 10, "max_subs": 10, "max_conns": 16, "max_channels": 100, "max_inflight": 10})
+        g = sl.Gen(r, cfg)
+        ks = sl._login(g, ["alice", "bob", "carol"])
+        ch = "!c1@localhost"
+        if cause == "creator_rollback":
+            # alice creates c1: the announcement is parked while she holds the new channel's lock
+            g.ops.append({"t": "send", "k": ks["alice"], "bytes": sl.frame("JOIN", [("id", g.rid()), ("channel", ch)]).hex(), "script": [{"park": 1}]})
+            rel = {"a": "release", "id": 1, "outcome": "err"}
+        else:
+            g.send(ks["alice"], sl.frame("JOIN", [("id", g.rid()), ("channel", ch)]), [])
+            if cause == "last_leaves":
+                g.ops.append({"t": "send", "k": ks["alice"], "bytes": sl.frame("LEAVE", [("id", g.rid()), ("channel", ch)]).hex(), "script": [{"park": 1}]})
+            else:
+                g.ops.append({"t": "hangup", "k": ks["alice"], "script": [{"park": 1}]})
+                del g.conns[ks["alice"]]
+            rel = {"a": "release", "id": 1, "outcome": r.choice(["ok", "err"])}
+        # bob joins c1: waits for the channel lock
+        g.ops.append({"t": "send", "k": ks["bob"], "bytes": sl.frame("JOIN", [("id", g.rid()), ("channel", ch)]).hex(), "script": []})
+        j3 = {"a": "send", "k": ks["carol"], "bytes": sl.frame("JOIN", [("id", g.rid()), ("channel", ch)]).hex()}
+        g.ops.append({"t": "batch", "acts": [j3, rel] if order == "send_first" else [rel, j3], "script": []})
+        g.ops.append({"t": "advance", "ms": 50})
+        if cause == "creator_rollback" and ks["alice"] in g.conns:
+            del g.conns[ks["alice"]]     # INTERNAL_SERVER_ERROR closes the creator's connection
+        if third == "join_then_publish":
+            g.ops.append({"t": "send", "k": ks["carol"], "bytes": sl.frame("BROADCAST", [("id", g.rid()), ("channel", ch), ("length", 5), ("qos", 1)], b"hello").hex(), "script": []})
+        ops = g.ops + srvmon.audit_ops(g)
+        cases.append({"cfg": cfg, "ops": ops, "nomodel": True})
+    return cases
+
+
 def run(tier, replay=None):
-    return srvprops.run(PROP, THEOREMS, tier, replay, extra_gen=lambda r, th: interleaved_histories(r, th) + parked_join_histories(r, th) + sl.kick_histories(r, th) + sl.stalled_drop_histories(r, th) + sl.cut_histories(r, th) + sl.oversize_histories(r, th) + sl.failed_event_histories(r, th),
+    return srvprops.run(PROP, THEOREMS, tier, replay, extra_gen=lambda r, th: interleaved_histories(r, th) + parked_join_histories(r, th) + orphan_join_histories(r, th) + sl.kick_histories(r, th) + sl.stalled_drop_histories(r, th) + sl.cut_histories(r, th) + sl.oversize_histories(r, th) + sl.failed_event_histories(r, th),
                         rule_note="plus parked-JOIN histories (a JOIN suspended in its notification while the joined user's connection goes away: no ghost membership, a namesake inherits nothing); plus interleaved histories: a LEAVE / disconnect clean-up suspended in its modulator notification while another connection joins, leaves or re-identifies; judged by the CHANNELS-vs-MEMBERS audit; plus members that stop reading and vanish while the server is blocked writing to them (connection ends through the write-error path); plus a member's request stream cut at sampled (thorough: all) byte offsets followed by the drop of the connection; plus small message buffers with long names, where unsolicited frames that do not fit end the receiving connection (compared with Model/ServerX.step_x); plus directed failed-notification histories (the modulator's event forwarding fails exactly on a MEMBER_LEFT: member leaves, owner removes a member, last member leaves and the channel is re-created, disconnect clean-up); plus directed removal histories: an owner removes a member with LEAVE on_behalf, then drops / fills its own limit / the removed member re-joins up to its limit / a namesake reconnects and probes ownership; ends with the CHANNELS-vs-MEMBERS audit (members must be alive)")
